@@ -135,7 +135,7 @@ decreases self.rest().len(),'''},
                 loop_ghost='''broadcast use lex_lemmas;
 let ghost k0 = eaten(*old(self), *self); let ghost s0 = old(self).rest();
 proof { assert(self.rest() == s0.skip(k0)); if self.rest().len() > 1 { assert(self.rest().skip(1) =~= s0.skip(k0 + 1)); assert(self.rest().skip(2) =~= s0.skip(k0 + 2)); } }''',
-                ghost=[('{', 'after', 'broadcast use lex_lemmas;'), ('let mut depth = 1usize;', 'after', 'proof { lemma_advanced_rest(*old(self), *self); assert(self.rest() == old(self).rest().skip(1)); }')]),
+                ghost=[('{', 'after', 'broadcast use lex_lemmas;'), ('while let Some(c) = self.bump()', 'before', 'proof { lemma_advanced_rest(*old(self), *self); assert(self.rest() == old(self).rest().skip(1)); }')]),
         scanner('whitespace', ' is_ws(old(self).prevc()),', ' k == TokenKind::Whitespace,', ret='k'),
         scanner('have_dim'),
         scanner('have_pragma', '', " !r ==> (final(self).prevc() == old(self).prevc() || ascii_letter(final(self).prevc())),", ret='r'),
